@@ -77,6 +77,23 @@ fn ecube_from_json(c: &Value) -> Ecube {
     Ecube::from_vars(&arg_list(c, "v"), c["x"].as_bool().expect("HARNESS: x"))
 }
 
+/// a formatter sink that fails once more than `left` bytes have been written
+pub struct FailingSink {
+    pub left: usize,
+}
+
+impl std::fmt::Write for FailingSink {
+    fn write_str(&mut self, s: &str) -> std::fmt::Result {
+        if s.len() > self.left {
+            self.left = 0;
+            Err(std::fmt::Error)
+        } else {
+            self.left -= s.len();
+            Ok(())
+        }
+    }
+}
+
 pub struct TwoState {
     pub slots: Vec<Option<V>>,
 }
@@ -334,6 +351,22 @@ impl TwoState {
                 out.insert("av".into(), proj(a));
                 out.insert("r".into(), json!(s.as_bytes()));
                 out.insert("vals".into(), vals);
+            }
+            "t_text_fail" => {
+                // Display into a sink that gives up after `limit` bytes (a bounded buffer): the failure must leave
+                // nothing behind that a later print could pick up
+                let a = self.get(arg_usize(op, "a"));
+                let mut sink = FailingSink { left: arg_usize(op, "limit") };
+                use std::fmt::Write;
+                let res = match a {
+                    V::Cube(c) => write!(sink, "{}", c),
+                    V::Ecube(c) => write!(sink, "{}", c),
+                    V::Sop(x) => write!(sink, "{}", x),
+                    V::Esop(x) => write!(sink, "{}", x),
+                    V::Soes(x) => write!(sink, "{}", x),
+                };
+                out.insert("k".into(), json!(kind_of(a)));
+                out.insert("r".into(), json!(res.is_ok()));
             }
             "t_alltext" => {
                 let n = arg_usize(op, "n");
